@@ -185,6 +185,14 @@ theorem guard_graph_reaches :
       reaches Gen.GuardGraph.edges p Gen.GuardGraph.limbsAssert = true := by
   decide +kernel
 
+/-- **(G)** every place in `src/` that builds a `Uint` from the bare struct literal `Self { limbs }` — the only
+    primitive way to make a value in safe code — sits in a function that reaches the `Self::LIMBS` assertion
+    (sites re-extracted from all of `src/**/*.rs` on every run). -/
+theorem raw_literals_guarded :
+    ∀ o ∈ Gen.GuardGraph.rawLiteralOwners,
+      reaches Gen.GuardGraph.edges o Gen.GuardGraph.limbsAssert = true := by
+  decide +kernel
+
 /-- the checker really discriminates: in the pinned tree's graph (`masked` did not mention `Self::LIMBS`)
     `MAX → from_limbs_unmasked → masked` did not reach the assertion. -/
 theorem guard_graph_detects_old_defect :
